@@ -69,6 +69,177 @@ where
     n
 }
 
+// ---- histories: the relation must not depend on earlier (failed) serializations on the same thread
+thread_local! {
+    static MODE: std::cell::Cell<u8> = const { std::cell::Cell::new(0) };
+}
+
+/// A pointee whose own Serialize can be made to fail: 1 = error, 2 = panic.
+#[derive(Clone, Debug, PartialEq)]
+struct Flaky(Value);
+impl serde::Serialize for Flaky {
+    fn serialize<S: serde::Serializer>(&self, s: S) -> Result<S::Ok, S::Error> {
+        match MODE.with(|m| m.get()) {
+            1 => Err(<S::Error as serde::ser::Error>::custom("injected failure")),
+            2 => panic!("injected panic"),
+            _ => self.0.serialize(s),
+        }
+    }
+}
+
+/// Outcome of one serialization: the value, the error text, or "panic".
+fn outcome<T: serde::Serialize>(x: &T) -> String {
+    match std::panic::catch_unwind(std::panic::AssertUnwindSafe(|| serde_json::to_value(x))) {
+        Ok(Ok(v)) => format!("ok:{}", v),
+        Ok(Err(e)) => format!("err:{}", e),
+        Err(_) => "panic".to_string(),
+    }
+}
+
+#[derive(serde::Serialize)]
+struct Nest {
+    v: i64,
+    next: arc_swap::ArcSwapOption<Nest>,
+}
+
+fn nest(d: usize) -> Nest {
+    let mut cur = Nest { v: 0, next: arc_swap::ArcSwapOption::from(None) };
+    for i in 1..d {
+        cur = Nest { v: i as i64, next: arc_swap::ArcSwapOption::from(Some(Arc::new(cur))) };
+    }
+    cur
+}
+
+fn nest_json(d: usize) -> Value {
+    let mut cur = json!({"v": 0, "next": null});
+    for i in 1..d {
+        cur = json!({"v": i as i64, "next": cur});
+    }
+    cur
+}
+
+fn history<S>(h: &Value, sname: &str, fails: &mut Vec<Value>) -> usize
+where
+    S: arc_swap::strategy::Strategy<Arc<Flaky>> + arc_swap::strategy::Strategy<Option<Arc<Flaky>>> + Default + 'static,
+{
+    let kind = h["kind"].as_str().unwrap().to_string();
+    let count = h["count"].as_u64().unwrap() as usize;
+    let h2 = h.clone();
+    let sname = sname.to_string();
+    // a fresh thread per history: whatever state a serialization leaves behind is per thread
+    let r = std::thread::Builder::new()
+        .stack_size(64 * 1024 * 1024)
+        .spawn(move || {
+            let mut out: Vec<Value> = Vec::new();
+            let mut n = 0usize;
+            let mut fail = |why: String| out.push(json!({"why": why, "strategy": sname, "value": h2}));
+            let v = json!({"a": [1, "x"], "b": null});
+            let c: ArcSwapAny<Arc<Flaky>, S> = ArcSwapAny::new(Arc::new(Flaky(v.clone())));
+            let o: ArcSwapAny<Option<Arc<Flaky>>, S> = ArcSwapAny::new(Some(Arc::new(Flaky(v.clone()))));
+            let none: ArcSwapAny<Option<Arc<Flaky>>, S> = ArcSwapAny::new(None);
+            let mode = if kind == "err" { 1 } else { 2 };
+            for i in 0..count {
+                MODE.with(|m| m.set(mode));
+                let (a, b) = (outcome(&c), outcome(&*c.load()));
+                let (a2, b2) = (outcome(&o), outcome(&*o.load()));
+                MODE.with(|m| m.set(0));
+                if a != b || a2 != b2 {
+                    fail(format!("failing serialization #{}: the container reports {:?} / {:?}, the stored pointer {:?} / {:?}", i + 1, a, a2, b, b2));
+                    break;
+                }
+                n += 2;
+            }
+            // afterwards everything is as if nothing had happened
+            for round in 0..3 {
+                let want = format!("ok:{}", v);
+                let got = [outcome(&c), outcome(&*c.load()), outcome(&o), outcome(&*o.load())];
+                if got.iter().any(|g| *g != want) || outcome(&none) != "ok:null" {
+                    fail(format!(
+                        "after {} serializations that failed in the pointee ({}), serializing the container gives {:?} / {:?} / {:?} but the stored pointer {:?} (round {})",
+                        count, kind, got[0], got[2], outcome(&none), got[1], round
+                    ));
+                    break;
+                }
+                n += 5;
+            }
+            if Arc::strong_count(&c.load_full()) != 2 {
+                fail("references leaked by failed serializations".to_string());
+            }
+            (out, n)
+        })
+        .unwrap()
+        .join();
+    match r {
+        Ok((out, n)) => {
+            for f in out {
+                if fails.len() < 20 {
+                    fails.push(f);
+                }
+            }
+            n
+        }
+        Err(_) => {
+            fails.push(json!({"why": "history check died", "strategy": "?", "value": h}));
+            0
+        }
+    }
+}
+
+fn nesting(h: &Value, fails: &mut Vec<Value>) -> usize {
+    let d = h["depth"].as_u64().unwrap() as usize;
+    let h2 = h.clone();
+    let r = std::thread::Builder::new()
+        .stack_size(256 * 1024 * 1024)
+        .spawn(move || {
+            let c = arc_swap::ArcSwap::from_pointee(nest(d));
+            let (a, b) = (outcome(&c), outcome(&*c.load()));
+            let want = format!("ok:{}", nest_json(d));
+            // twice: the second time on a thread that has already serialized d levels
+            let (a2, b2) = (outcome(&c), outcome(&*c.load()));
+            let leak = std::mem::ManuallyDrop::new(c); // (a long chain: do not recurse in drop on a small stack)
+            let _ = &leak;
+            if a != b || a != want || a2 != want || b2 != want {
+                Some(json!({"why": format!("containers nested {} deep: the container serializes as {:.80} but the stored pointer as {:.80}", d, a, b), "strategy": "default", "value": h2}))
+            } else {
+                None
+            }
+        })
+        .unwrap()
+        .join();
+    match r {
+        Ok(Some(f)) => fails.push(f),
+        Ok(None) => {}
+        Err(_) => fails.push(json!({"why": "nesting check died", "strategy": "default", "value": h})),
+    }
+    4
+}
+
+pub fn run_histories(path: &str) -> Value {
+    let f = std::fs::File::open(path).expect("open histories");
+    let mut fails = Vec::new();
+    let mut values = 0usize;
+    let mut checks = 0usize;
+    for line in std::io::BufReader::new(f).lines() {
+        let line = line.unwrap();
+        if line.trim().is_empty() {
+            continue;
+        }
+        let h: Value = serde_json::from_str(&line).expect("history json");
+        values += 1;
+        if h["kind"] == "nest" {
+            checks += nesting(&h, &mut fails);
+            continue;
+        }
+        checks += history::<DefaultStrategy>(&h, "default", &mut fails);
+        #[allow(deprecated)]
+        {
+            checks += history::<arc_swap::strategy::test_strategies::FillFastSlots>(&h, "nofast", &mut fails);
+        }
+        checks += history::<RwLock<()>>(&h, "rwlock", &mut fails);
+    }
+    json!({"values": values, "checks": checks, "failures": fails})
+}
+
 pub fn run(path: &str) -> Value {
     let f = std::fs::File::open(path).expect("open shapes");
     let mut fails = Vec::new();
